@@ -40,7 +40,8 @@ impl<I: Iterator> Iterator for Loose<I> {
 }
 
 /// The items of `v` behind a loose size hint. Modes 0..64 use `Loose`; 64.. use std adapters
-/// (`filter_map` over interleaved junk, `flat_map` over chunks, `take_while`, `from_fn`).
+/// (`filter_map` over interleaved junk, `flat_map` over chunks, `from_fn`, `take_while`) and, for
+/// 224.., an iterator that is not fused.
 pub fn loose_iter<T: Clone + 'static>(v: Vec<T>, mode: u8) -> Box<dyn Iterator<Item = T>> {
     let n = v.len();
     match mode {
@@ -70,6 +71,13 @@ pub fn loose_iter<T: Clone + 'static>(v: Vec<T>, mode: u8) -> Box<dyn Iterator<I
             let mut it = v.into_iter();
             Box::new(std::iter::from_fn(move || it.next()))
         }
+        224..=255 => {
+            // not fused: after its first `None` the iterator would hand out more items (a batch
+            // source such as `mpsc::Receiver::try_iter`). `collect` / `extend` must stop at the first
+            // `None` like every std collection does; what comes after belongs to the next batch.
+            let junk: Vec<T> = v.iter().take(300).cloned().collect();
+            Box::new(Resumable { items: v.into_iter(), ended: false, junk, next_junk: 0 })
+        }
         _ => {
             let mut left = n;
             Box::new(v.into_iter().take_while(move |_| {
@@ -78,6 +86,30 @@ pub fn loose_iter<T: Clone + 'static>(v: Vec<T>, mode: u8) -> Box<dyn Iterator<I
                 go
             }))
         }
+    }
+}
+
+/// Yields its items, then `None` once, then (if polled again) up to 300 further items.
+pub struct Resumable<T> {
+    items: std::vec::IntoIter<T>,
+    ended: bool,
+    junk: Vec<T>,
+    next_junk: usize,
+}
+
+impl<T: Clone> Iterator for Resumable<T> {
+    type Item = T;
+    fn next(&mut self) -> Option<T> {
+        if !self.ended {
+            let x = self.items.next();
+            if x.is_none() {
+                self.ended = true;
+            }
+            return x;
+        }
+        let x = self.junk.get(self.next_junk).cloned();
+        self.next_junk += 1;
+        x
     }
 }
 
